@@ -484,7 +484,8 @@ class Builder(ExprMixin):
             return
         out = {}
         for k in set().union(*[set(c) for c in cnts]):
-            vs = {c.get(k) for c in cnts}
+            dflt = self.param_tree_default(k)
+            vs = {c.get(k, dflt) for c in cnts}
             out[k] = vs.pop() if len(vs) == 1 else None
         self.counts = out
 
